@@ -67,11 +67,12 @@ GEN = ("Scenarios are drawn from seeded generators (window 4..4096, nonces incl.
 hc_prop("C01",
     lambda tier: [hc("faulty", 3000, 150000, tier, "C01", packets=T(tier, 300, 1500)),
                   hc("fault-then-fair", 800, 30000, tier, "C01"),
-                  hc("ideal", 400, 10000, tier, "C01")],
-    GEN + "non-trivial: >= 20 packets delivered and >= 1 frame dropped and >= 1 duplicated or delayed past a later frame.",
+                  hc("ideal", 400, 10000, tier, "C01"),
+                  dict(family="pid-lap", n=T(tier, 6, 300), params={}, scalable=False)],
+    GEN + "pid-lap: the harness sends just under 2^20 tiny unordered packets (about a hundred per frame) to a real receiving HalfConnection and then copies of the very first frames again: late duplicates whose 20-bit packet ids have come round into the receiver's window, told apart by the frame id alone. non-trivial: >= 20 packets delivered and >= 1 frame dropped and >= 1 duplicated or delayed past a later frame (pid-lap: >= 90 % of the lap delivered and the late duplicates handed over).",
     "Offline history oracle over every delivery: payload identity maps each delivered payload to the submitted packet; checks unknown/altered/duplicate/out-of-order-per-channel deliveries. Exploration of seeded fault schedules, not a proof.",
     "history oracle (payload identity, per-channel subsequence) over fault-injected executions",
-    dict(quick=800, thorough=20000), require=["deliveries", "fate_drop", "fate_dup", "fate_corrupt"])
+    dict(quick=800, thorough=20000), require=["deliveries", "fate_drop", "fate_dup", "fate_corrupt", "lap_late_duplicate_frames"])
 
 hc_prop("C02",
     lambda tier: [hc("fault-then-fair", 2500, 100000, tier, "C02"),
@@ -94,18 +95,20 @@ hc_prop("C05",
 hc_prop("C12",
     lambda tier: [hc("faulty", 2000, 80000, tier, "C12"),
                   hc("rate", 600, 20000, tier, "C12"),
-                  hc("ideal", 400, 10000, tier, "C12")],
-    GEN + "non-trivial: >= 1 fragment retransmitted and >= 1 ack group processed.",
+                  hc("ideal", 400, 10000, tier, "C12"),
+                  dict(family="solo-api", n=T(tier, 300, 10000), params={"batch": 10, "ops": 400})],
+    GEN + "solo-api: one real sending HalfConnection driven through its API in arbitrary call order (send / step after 0, 0.3, 0.9, 1, 5, 33 ms / flush / honest acknowledgements after a simulated round trip, drawn at random: step() twice in a row, twice within one millisecond, sends between step and flush, several flushes or none), the same boundary model following along. non-trivial: >= 1 fragment retransmitted and >= 1 ack group processed (solo-api: >= 5 steps less than 1 ms apart, >= 3 TimeSensitive packets, >= 3 ack frames).",
     "Reference model fed from the wire and from the ack frames handed to the sender (acceptance rule: bitfield non-zero, all ids in the sender's log, nonce parity) decides per fragment whether a (re)transmission is allowed for its mode.",
     "reference-model monitor on wire frames and ack inputs",
-    dict(quick=500, thorough=15000), require=["frag_retx", "ack_groups_processed", "sub_ts"])
+    dict(quick=500, thorough=15000), require=["frag_retx", "ack_groups_processed", "sub_ts", "solo_steps_less_than_1ms_apart"])
 
 hc_prop("C13",
     lambda tier: [hc("rate", 2500, 80000, tier, "C13"),
                   hc("faulty", 600, 20000, tier, "C13"),
                   hc("ideal", 300, 10000, tier, "C13"),
-                  dict(family="ack-storm", n=T(tier, 100, 4000), params={"batch": 4})],
-    GEN + "rate family: ceilings 1472 B/s..2^32-1 on either side, backlogs, 0..20 application flushes per step, pauses then bursts. ack-storm: the harness is the peer of one real HalfConnection (ceiling 20 kB/s..500 kB/s, modest own traffic, so it holds burst credit): it acknowledges the victim's frames honestly after a simulated round trip of 20..400 ms and every 1..4 s hands it 170..3000 empty data frames with ids 33 apart between two flushes, so that up to 4096 acknowledgement groups (25 ack frames) are owed at once. non-trivial: >= 100 frames on the wire (ack-storm: a flush owing more than one ack frame with an RTT estimate present).",
+                  dict(family="ack-storm", n=T(tier, 100, 4000), params={"batch": 4}),
+                  dict(family="ep-ideal", n=T(tier, 100, 4000), params={})],
+    GEN + "rate family: ceilings 1472 B/s..2^32-1 on either side, backlogs, 0..20 application flushes per step, pauses then bursts. ack-storm: the harness is the peer of one real HalfConnection (ceiling 20 kB/s..500 kB/s, modest own traffic, so it holds burst credit): it acknowledges the victim's frames honestly after a simulated round trip of 20..400 ms and every 1..4 s hands it 170..3000 empty data frames with ids 33 apart between two flushes, so that up to 4096 acknowledgement groups (25 ack frames) are owed at once. ep-ideal: real Client and Server with independently drawn rate limits, bursts far above them; the connection frames of each direction on the virtual wire are counted against min(sender's send limit, receiver's receive limit) with the largest RTT estimate and step interval the sender had (coarse form: what it reports is far outside). non-trivial: >= 100 frames on the wire (ack-storm: a flush owing more than one ack frame with an RTT estimate present).",
     "Exact byte counting at FrameSink::send on virtual time; every interval within a 600-event look-back plus a running-minimum form for long intervals, against B*(dt+R)+1472 (R = larger of the RTT estimates after the last two steps).",
     "interval byte-count oracle on the virtual-time wire trace",
     dict(quick=800, thorough=20000), require=["rate_events", "flushes_owing_more_than_one_ack_frame"])
@@ -120,7 +123,8 @@ hc_prop("C15",
 hc_prop("C20",
     lambda tier: [hc("faulty", 2000, 80000, tier, "C20"),
                   hc("ideal", 600, 20000, tier, "C20"),
-                  hc("alloc-pair", 600, 20000, tier, "C20")],
+                  hc("alloc-pair", 600, 20000, tier, "C20"),
+                  dict(family="solo-api", n=T(tier, 100, 4000), params={"batch": 10, "ops": 400})],
     GEN + "non-trivial: >= 1 TimeSensitive packet discarded and >= 1 window ack released >= 2 packets.",
     "Boundary model (submissions, wire, accepted window acks) bounds send_buffer_size() after every call: [L, U] with U-L = stale TimeSensitive packets not yet provably discarded; exact value whenever nothing is pending; never above the total submitted.",
     "reference-model monitor on a public observable",
@@ -158,12 +162,13 @@ hc_prop("C11",
 PROPS["C14"] = dict(
     runs=lambda tier: [dict(family="srcomp", n=T(tier, 400, 20000), params={"batch": 200, "steps": 60}),
                        hc("rate", 800, 30000, tier, "C14"),
-                       hc("blackout", 300, 10000, tier, "C14")],
-    rule=("srcomp: the real SendRateComp driven directly with random feedback histories (RTT sample 0..10^6 ms, receive rate 0..2^32-1, loss rate 0..1 "
+                       hc("blackout", 300, 10000, tier, "C14"),
+                       dict(family="ep-ideal", n=T(tier, 100, 4000), params={})],
+    rule=("ep-ideal: real Client and Server whose four rate limits are drawn independently (20 kB/s..2^64-1), allowed rate of both senders sampled after every step against min(local send limit, peer receive limit), capped at 2^32-1. srcomp: the real SendRateComp driven directly with random feedback histories (RTT sample 0..10^6 ms, receive rate 0..2^32-1, loss rate 0..1 "
           "incl. 1e-9, rate-limited flag, gaps 0 ms..hours, ceilings 1472..2^32-1), stepped in lock-step with an independent evaluation of the RFC 5348 "
           "bounds; non-trivial = history reached the throughput-equation phase and had >= 1 no-feedback reduction. rate/blackout: the live controller "
           "inside hcsim sampled after every step against ceiling and floor. distinct = hash(ceiling, feedback count, reductions, final rate) / scenario signature."),
-    level_text="Lock-step reference oracle: after every step X <= ceiling, X >= 23; after the first loss report X <= max(T(R,p),23); slow start at most doubles or uses 4380/R; no increase without feedback, an expiry at most halves; rtt_s is the 0.9/0.1 average; the loss history is initialised within 5 % of the target when the target is reachable.",
+    level_text="Lock-step reference oracle: after every step X <= ceiling, X >= 23; after the first loss report X <= max(T(R,p),23); slow start at most doubles or uses 4380/R; no increase without feedback, an expiry at most halves; rtt_s is the 0.9/0.1 average; the loss history is initialised within 5 % of the target when the target is reachable. Endpoint level: the ceiling the controller works with is the one the two configurations imply.",
     level_note="Trusted: the ~40-line f64 evaluation of the RFC formulas in harness/src/rate14.rs. Timer expiry instants are not modelled (bounds only).",
     technique="lock-step reference oracle on the real rate controller",
     floor=dict(quick=2000, thorough=50000), require_counters=["srcomp_steps", "slow_start_exits", "eqn_phase_feedbacks", "nofeedback_reductions", "initial_p_checked"],
@@ -228,8 +233,9 @@ hc_prop("C19",
                   dict(family="lifecycle", n=T(tier, 300, 10000), params={}),
                   dict(family="disconnect", n=T(tier, 300, 10000), params={}),
                   dict(family="limits", n=T(tier, 100, 4000), params={}),
-                  dict(family="ep-partial-read", n=T(tier, 100, 3000), params={})] + MIRI_RUNS(tier),
-    GEN + "Every scenario runs under the checking global allocator (layout recorded at alloc, compared at dealloc/realloc; live bytes of calls into uflow counted per scope); at the end both HalfConnections are dropped mid-state (delivered, skipped, partially assembled, resynchronised-away packets). Endpoint families (lifecycle, disconnect, limits): real Client / Server / RemoteClient handles created, connected, disconnected, timed out and dropped in every state of the lifecycle (also mid-transfer and mid-handshake, Server dropped with live connections); after the whole world is dropped the bytes allocated inside calls into uflow must be back to where they were; ep-partial-read: applications that read only the first 0..2 events of a step's iterator and drop it (unread Receive payloads stay the library's to release). non-trivial: teardown checked and >= 1 reassembled multi-fragment packet freed (endpoint families: teardown checked).",
+                  dict(family="ep-partial-read", n=T(tier, 100, 3000), params={}),
+                  dict(family="ep-hostile", n=T(tier, 300, 10000), params={"frames": 200})] + MIRI_RUNS(tier),
+    GEN + "Every scenario runs under the checking global allocator (layout recorded at alloc, compared at dealloc/realloc; live bytes of calls into uflow counted per scope); at the end both HalfConnections are dropped mid-state (delivered, skipped, partially assembled, resynchronised-away packets). Endpoint families (lifecycle, disconnect, limits): real Client / Server / RemoteClient handles created, connected, disconnected, timed out and dropped in every state of the lifecycle (also mid-transfer and mid-handshake, Server dropped with live connections); after the whole world is dropped the bytes allocated inside calls into uflow must be back to where they were; ep-partial-read: applications that read only the first 0..2 events of a step's iterator and drop it (unread Receive payloads stay the library's to release); ep-hostile: error paths of the handshake and of established connections under a raw hostile peer (a second release of a block is recorded by the allocator and withheld from the system allocator, so it is reported instead of crashing the worker). non-trivial: teardown checked and >= 1 reassembled multi-fragment packet freed (endpoint families: teardown checked).",
     "Allocator-contract monitor on every free in every scenario + leak check at teardown (scoped live bytes return to the pre-construction value). The thorough tier adds the same families under AddressSanitizer/LeakSanitizer (nightly) and a small subset interpreted by Miri with tree borrows (UB, layout on deallocation, leaks, data races incl. a Send/Sync workload).",
     "checking global allocator (layout match, scoped leak check) over fault-injected executions",
     dict(quick=800, thorough=20000), require=["teardowns_checked", "delivered_multifrag", "endpoint_teardowns_checked"])
@@ -260,8 +266,9 @@ ep_prop("C07",
     lambda tier: [ep("handshake", 700, 30000, tier, "C07", max_clients=T(tier, 6, 24)),
                   ep("handshake-mismatch", 1500, 50000, tier, "C07"),
                   ep("lifecycle", 300, 10000, tier, "C07"),
-                  ep("limits", 400, 15000, tier, "C07")],
-    "handshake: 1..6 (thorough 24) clients connect at once through loss / duplication / delay of handshake frames and targeted loss of the first 0..11 SYNs, SYN-ACKs or ACKs, nonces incl. 0, 2^32-1 and 20-bit wrap values; run twice, the second time with forged frames from spoofed sources (SYN-ACK / ACK / error with nonces that were never issued, verbatim replays of earlier genuine handshake frames incl. SYNs, SYNs for tracked addresses, misdirected frames), followed by an echo of packets of every mode and one of the maximum size. handshake-mismatch: a grid of client/server limits and a raw wrong-version peer. limits (C17's family, run here for its handshake leftovers): more handshakes in flight than the server admits, refusals at SYN time and at activation, refused and disconnected clients coming back from the same address seconds later and staying past every timer of their earlier attempt. non-trivial: >= 1 forged / duplicated handshake frame reached an endpoint or >= 1 handshake frame lost.",
+                  ep("limits", 400, 15000, tier, "C07"),
+                  dict(family="ep-ideal", n=T(tier, 100, 4000), params={})],
+    "handshake: 1..6 (thorough 24) clients connect at once through loss / duplication / delay of handshake frames and targeted loss of the first 0..11 SYNs, SYN-ACKs or ACKs, nonces incl. 0, 2^32-1 and 20-bit wrap values; run twice, the second time with forged frames from spoofed sources (SYN-ACK / ACK / error with nonces that were never issued, verbatim replays of earlier genuine handshake frames incl. SYNs, SYNs for tracked addresses, misdirected frames), followed by an echo of packets of every mode and one of the maximum size. handshake-mismatch: a grid of client/server limits and a raw wrong-version peer. limits (C17's family, run here for its handshake leftovers): more handshakes in flight than the server admits, refusals at SYN time and at activation, refused and disconnected clients coming back from the same address seconds later and staying past every timer of their earlier attempt. ep-ideal: compatible configurations with limits from 3 kB to 2^64-1 must connect, and the SYN / SYN-ACK on the wire must carry each side's configuration capped at 2^32-1. non-trivial: >= 1 forged / duplicated handshake frame reached an endpoint or >= 1 handshake frame lost.",
     "Wire-level reference check at every Connect (server: an ACK echoing a nonce it sent to that address was delivered; client: a SYN-ACK echoing its SYN nonce was delivered), at every handshake Error event (a matching error frame echoing the nonce was delivered), first data frame ids equal the exchanged nonces, at most one Connect per address, no Disconnect / handshake error on an established connection, refusals carry the right error; after every server call, every address whose connection the server has reported and not ended is still known to Server::client() (`established-connection-untracked`). Twin equality of whole histories was dropped (duplicates legitimately change timing); the invariants run on both runs.",
     "history oracle on handshake wire trace + forged-frame injection",
     dict(quick=800, thorough=20000), require=["c07_server_connects_checked", "c07_client_connects_checked", "c07_first_data_frames_checked", "replayed_genuine_handshake_frame", "forged_ack_wrong_nonce", "c07_mismatch_cases_checked"])
@@ -294,7 +301,7 @@ ep_prop("C10",
 
 ep_prop("C17",
     lambda tier: [ep("limits", 2500, 80000, tier, "C17")],
-    "limits: max_active 1..8, max_total up to 16, 1..40 clients arriving in bursts, staggered or in waves; all first ACKs lost (many SYNs before any ACK), lossy handshakes; connections ended by disconnect from either side, Client drop, Server::drop or silent death (timeout); clients that disconnected come back from the same address 0.1..9 s later and stay; a late wave of max_total+2 handshakes from fresh addresses whose ACKs are all lost arrives 26..48 s in (after the server's 20 s memory of ended connections has expired); finally everything ends and, 50 s later, a fresh client must connect. non-trivial: more clients than max_active and >= 1 connection ended by the script.",
+    "limits: max_active 1..8, max_total up to 16 (in a quarter of the scenarios below max_active: both only have to be positive), 1..40 clients arriving in bursts, staggered or in waves; all first ACKs lost (many SYNs before any ACK), lossy handshakes; connections ended by disconnect from either side, Client drop, Server::drop or silent death (timeout); clients that disconnected come back from the same address 0.1..9 s later and stay; a late wave of max_total+2 handshakes from fresh addresses whose ACKs are all lost arrives 26..48 s in (after the server's 20 s memory of ended connections has expired); finally everything ends and, 50 s later, a fresh client must connect. non-trivial: more clients than max_active and >= 1 connection ended by the script.",
     "Counters after every server call: connections between Connect and their terminal event / the server's own Disconnect <= max_active_connections; addresses for which Server::client() is Some <= max_total_connections; ServerFull refusals are mirrored by server error events when enabled; capacity is available again after everything ended. Offline admission check from wire + events only (independent of the server's own table): at every newly admitted handshake (fresh SYN-ACK nonce pair) the established connections plus the handshakes provably in progress (same SYN-ACK repeated later / Connect later) number < max_total_connections; conversely every ServerFull refusal needs a reason: an upper bound of what the server can still hold at that instant (reported and not ended, ended by the peer's Disconnect < 20 s ago, admitted < 22 s ago) must reach a limit (`refused-although-capacity-free`: entries kept beyond their documented lifetime show here).",
     "online counters over the server's event stream and public lookup",
     dict(quick=1200, thorough=30000), require=["c17_refused_with_serverfull", "c17_capacity_reuse_checked", "c17_connections_ended_by_script", "c17_admissions_checked", "c17_reconnects_from_same_address", "c17_late_wave_handshakes", "c17_refusals_checked"],
